@@ -60,7 +60,7 @@ pub open spec fn expected(a: &CannotDerive, item: &Item, ty: &Type) -> CanDerive
     if !ctx.s_allowlisted().s_contains(item.s_id()) { ctx.s_blocklisted_implements(item, t) }      // C10: blocklisted: only if the user vouches
     else if sp_not_by_name(t, ctx, item) { CanDerive::No }                                         // "user-excluded types"
     else if item.s_opaque(ctx) {
-        if t != DeriveTrait::Copy && ty.s_is_union() && ctx.spec_options().untagged_union { CanDerive::No } else { CanDerive::Yes }
+        if t != DeriveTrait::Copy && ty.s_canonical(ctx).s_is_union() && ctx.spec_options().untagged_union { CanDerive::No } else { CanDerive::Yes }   // a reference / alias is as much a Rust union as the opaque union it names (F37)
     } else {
         match ty.s_kind() {
             TypeKind::Pointer(inner) => match ctx.s_type(inner).s_canonical(ctx).s_kind() {
